@@ -152,7 +152,59 @@ func (c *Case) effIdle(e string) int {
 	return peer
 }
 
+// armMs is the time (since the start) at which the blocking calls are made.
+func (c *Case) armMs() int {
+	t := 8*c.RTTms + 30
+	if c.TruncLen > 0 {
+		t += 2 * (3*c.RTTms + 60)
+	}
+	return t
+}
+
 func (c *Case) keepAliveOn() bool { return c.C.KeepAlive != "off" || c.S.KeepAlive != "off" }
+
+// kaInterval is the interval at which endpoint e sends keep-alives (0 = never): connection.go applyTransportParameters
+// uses min(KeepAlivePeriod, idle/2) with e's effective idle period.
+func (c *Case) kaInterval(e string) int {
+	s := c.C
+	if e == "s" {
+		s = c.S
+	}
+	neg := c.negIdle()
+	var p int
+	switch s.KeepAlive {
+	case "short":
+		p = neg / 3
+	case "long":
+		p = neg * 3 / 2
+	default:
+		return 0
+	}
+	if h := c.effIdle(e) / 2; h < p {
+		p = h
+	}
+	return p
+}
+
+// aliveGuaranteed reports whether the configured keep-alives keep BOTH endpoints from timing out on a healthy
+// network. Because a remote idle timeout below 5 s is raised to 5 s, an endpoint's keep-alive interval can exceed
+// the idle period its peer applies; such a configuration is treated like "no keep-alive".
+func (c *Case) aliveGuaranteed() bool {
+	for _, e := range []string{"c", "s"} {
+		p := "s"
+		if e == "s" {
+			p = "c"
+		}
+		if c.kaInterval(e) > 0 {
+			continue
+		}
+		if k := c.kaInterval(p); k > 0 && k+3*c.RTTms+60 < c.effIdle(e) {
+			continue
+		}
+		return false
+	}
+	return true
+}
 
 // normalize makes the generated case self-consistent (also applied to replayed cases, where it is a no-op).
 func normalize(c *Case) {
@@ -160,17 +212,20 @@ func normalize(c *Case) {
 		return
 	}
 	neg := c.negIdle()
-	// Without keep-alives the connection goes quiet once the calls are armed. Unless idleness is the cause under
-	// test, the cause must strike well before the natural idle deadline.
-	if !c.keepAliveOn() {
-		limit := neg/2 - 12*c.RTTms - 100
+	if c.Phase == "edge" {
+		c.TruncLen = 0
+	}
+	// Without keep-alives the connection goes quiet once the handshake and the preparations are over. Unless
+	// idleness is the cause under test, the cause must strike well before the natural idle deadline.
+	if !c.aliveGuaranteed() {
+		limit := c.RTTms + neg/2 - c.armMs() - 2
 		if limit < 0 {
 			c.C.KeepAlive = "short"
 		} else if c.AtMs > limit && !(c.Cause == "idle" && c.Variant%2 == 1) {
 			c.AtMs = limit
 		}
 	}
-	if c.keepAliveOn() && c.AtMs > 10*neg {
+	if c.aliveGuaranteed() && c.AtMs > 10*neg {
 		c.AtMs = 10 * neg // "never over 10 idle periods while keep-alives are answered"
 	}
 	if c.Cause == "idle" && c.Variant%2 == 1 {
